@@ -27,37 +27,51 @@ from .common import find_node, rule, unwrap_try
 
 PROP = "C13"
 READY = False
-TECHNIQUE = "table/shape agreement between annotations and validator combinators, CFG reachability of raises after stores, taint of the raw front-matter value, config-writer census"
+TECHNIQUE = "shape agreement between annotations and validator combinators, CFG path rules (stores vs rejections, handler paths, last-store for merged fields), taint/provenance of the raw and restored values with one/two levels of helper substitution, config-writer census"
 
 META = {
     "explanation": (
-        "Every dataclass field of MdParserConfig has a validator; for fields validated by the dc_validators combinators the "
-        "accepted shape (instance_of / optional / in_ / deep_iterable / deep_mapping, whose own bodies are re-verified) agrees "
-        "with the annotation including optionality (R1). A validator that stores on the instance and can still reject afterwards is "
-        "tolerated only while every caller that survives the rejection re-stores a clean value in its handler - a failing constructor discards "
-        "the instance (R2). After validate_field(obj, f, v) no store of the raw v (or a value built "
-        "from it) to obj follows in the same iteration unless guarded by a metadata flag carried only by non-coercing fields (R3). "
-        "Writes to config objects happen only in validators (own instance), in merge_file_level (on the copy taken before the loop; "
-        "the global parameter is never written or validated against; merged dicts are new dicts with the front-matter operand last) "
-        "and in a mutate+restore-in-finally bracket (R4). The handler of the validation try emits exactly one MD_TOPMATTER warning and "
-        "reaches the next iteration without storing the rejected value, and re-stores a clean value on every path when the raw value was stored before validation or a validator may store before rejecting (R5). __post_init__ validates every field, copy re-validates, "
-        "both front ends build the global config through the constructor inside a handler covering TypeError/ValueError with a default "
-        "fallback, and registering/reading loops use the same omit filter (R6). No raise-condition conjoins `x is not a T` with a "
-        "type test on x's members (R7). Round-4 additions: for fields flagged merge_topmatter every successful path through the update loop "
-        "ends with the merged dict as the last store (R3); the value the handler re-stores is computed from the incoming configuration or the copy, "
-        "not from another default (R5); a field that is mutated in place and restored by re-binding gets a freshly built container from its validator "
-        "on every accepting path, so that copy() never shares it with the global object (R4); the Sphinx builder-inited handler binds env.myst_config "
-        "on every normal path (R6). In validators the bare truthiness of the validated value (or of an item of it) never selects the accepting "
-        "path unless an isinstance test on it dominates (R8: `if not value: return` where `value is None` was meant)."
+        "R1: every dataclass field of MdParserConfig has a validator; for fields validated by the dc_validators combinators the accepted shape "
+        "(instance_of / optional / in_ / deep_iterable / deep_mapping, whose own bodies are re-verified on every run) agrees with the annotation "
+        "including optionality, container and member types; custom check_* validators are listed, not type-checked. "
+        "R2: a validator that stores on the instance and can still reject afterwards is tolerated only while every caller that survives the rejection "
+        "re-stores a clean value in its handler (a failing constructor discards the instance). "
+        "R3: after validate_field(obj, f, v) no store of the raw v (or of a value built from it) to obj follows in the same update unless guarded by a "
+        "metadata flag carried only by non-coercing fields; for fields flagged merge_topmatter every successful path of an update ends with the merged dict "
+        "as the last store. "
+        "R4: config objects are written only by validators (own instance), by merge_file_level or the helpers it hands its copy to (on the copy taken once "
+        "before the loop and returned; the global parameter is never written, validated against or passed to a writer), and inside mutate+restore-in-finally "
+        "brackets; a field mutated in place inside such a bracket gets a freshly built container from its validator on every accepting path, so copy() never "
+        "shares it with the global object; merged dicts are new dicts with the front-matter operand last; only sphinx_ext.main.create_myst_config binds env.myst_config. "
+        "R5: the handler of the validation try emits exactly one MD_TOPMATTER warning, reaches the next update without storing the rejected value and, when the raw "
+        "value was stored before validation or a validator may store before rejecting, re-stores on every path a value computed from the incoming configuration "
+        "(or the copy), not some other default. "
+        "R6: __post_init__ calls validate_fields unconditionally; validate_fields applies validate_field to the current value of every field on every iteration "
+        "(a value-dependent skip is a violation); copy re-validates through dc.replace/the constructor; both front ends build the global config through the "
+        "constructor inside a handler covering TypeError and ValueError with a default fallback; everything a custom validator can raise on a configured value "
+        "is covered by both handlers; the Sphinx builder-inited handler binds env.myst_config on every normal path; registering and reading loops use the same "
+        "omit filter. "
+        "R7: no raise-condition conjoins `x is not a <container>` with a type test on x's members. "
+        "R8: in validators the bare truthiness of the validated value (or of an item of it) never selects the accepting path unless an isinstance test on it dominates. "
+        "The per-field update is located by role (the function that calls validate_field, reached from merge_file_level directly or through one or two "
+        "module-level helpers with parameters substituted), so splitting merge_file_level into helpers keeps every rule deciding."
     ),
     "not_decided": (
-        "normal-form equality of arbitrary value spellings; value ranges (words_per_minute: 0); the bodies of the custom check_* "
-        "validators against their annotations; the docutils option-string converters (_validate_*) against the field types"
+        "normal-form equality of arbitrary value spellings; value ranges beyond what validators state; the bodies of the custom check_* validators against their "
+        "annotations (only R2/R7/R8 shape facts); the docutils option-string converters (_validate_*, e.g. whether a textual shortcut in _validate_url_schemes still "
+        "recognises every YAML mapping spelling - a fact about a string predicate versus YAML's grammar, value semantics); whether a guard that skips the dict merge "
+        "is harmless for the values it admits (R3 is value-blind: any extra condition on the merge is reported)"
     ),
-    "trusted_base": ["CPython ast", "mystsa CFG (flow.py)", "dataclasses semantics: __post_init__ runs after __init__, dc.replace calls the constructor"],
+    "trusted_base": [
+        "CPython ast",
+        "mystsa CFG (flow.py)",
+        "dataclasses semantics: __post_init__ runs after __init__, dc.replace calls the constructor and passes field values by reference",
+        "the Sphinx environment (and env.myst_config with it) is pickled between builds",
+    ],
     "assumptions": [
         "config values are JSON/YAML-typed (None, bool, int, float, str, list, dict) or Python objects given in conf.py",
-        "config objects are reached through the names md_config / myst_config or MdParserConfig-annotated parameters",
+        "config objects are reached through the names md_config / myst_config, MdParserConfig-annotated parameters, or parameters bound to such objects at every call site",
+        "helpers are module-level functions called by plain name (methods, lambdas and dynamic dispatch are not followed)",
     ],
 }
 
@@ -718,9 +732,10 @@ def rejection_after_store(corpus: Corpus, f: FunctionInfo):
 
 def validator_candidates(corpus: Corpus) -> dict[str, FunctionInfo]:
     cands: dict[str, FunctionInfo] = dict(custom_validators(corpus))
+    updaters = {f.fq for f, _ in _validate_field_calls(corpus)}  # functions that apply validators are not validators
     for m in (corpus.mod(MAIN), corpus.mod(DCV)):
         for f in m.functions.values():
-            if not f.is_lambda and f.cls is None and len(f.params) >= 3 and f.name not in ("validate_field", "validate_fields", "merge_file_level"):
+            if not f.is_lambda and f.cls is None and len(f.params) >= 3 and f.name not in ("validate_field", "validate_fields", "merge_file_level") and f.fq not in updaters:
                 cands.setdefault(f.fq, f)
     return cands
 
@@ -747,6 +762,26 @@ def _origin_seeds(f: FunctionInfo, obj: str) -> set[str]:
             elif isinstance(v, ast.Call) and (dotted(v.func) or "").rsplit(".", 1)[-1] in ("replace", "copy", "deepcopy") and v.args and isinstance(v.args[0], ast.Name):
                 seeds.add(v.args[0].id)
     return seeds
+
+
+def _origin_params(corpus: Corpus, f: FunctionInfo, obj: str, fieldvar: str | None = None) -> set[str]:
+    """Parameters of the helper ``f`` that, at every call site, receive a value computed from the object bound to
+    ``obj`` or from the object that one was copied from."""
+    if obj not in f.params:
+        return set()
+    callers = _callers_of(corpus, f)
+    if not callers:
+        return set()
+    out = set(f.params)
+    for g, c, bind in callers:
+        a = bind.get(obj)
+        if not isinstance(a, ast.Name):
+            return set()
+        fa = bind.get(fieldvar) if fieldvar else None
+        gfield = fa.id if isinstance(fa, ast.Name) else None
+        origin = _derived_names(g, _origin_seeds(g, a.id) | _origin_params(corpus, g, a.id, gfield)) - {gfield}
+        out &= {p for p, e in bind.items() if _free_names(e) & origin}
+    return out
 
 
 def _derived_names(f: FunctionInfo, seeds: set[str]) -> set[str]:
@@ -816,7 +851,7 @@ def catching_callers(corpus: Corpus) -> list[tuple[FunctionInfo, ast.Call, ast.E
                 cfg = get_cfg(f)
                 hdr = cfg.loops.get(cfg.stmt_of(n))
                 clean = set()
-                origin = _derived_names(f, _origin_seeds(f, obj)) - {fieldvar}
+                origin = _derived_names(f, _origin_seeds(f, obj) | _origin_params(corpus, f, obj, fieldvar)) - {fieldvar}
                 for st in obj_stores(f, obj):
                     if st.value is not None and _expr_kind(st.value, raw, unknown) == "clean":
                         if _free_names(st.value) & origin:
@@ -1084,6 +1119,79 @@ def _validate_field_calls(corpus: Corpus) -> list[tuple[FunctionInfo, ast.Call]]
     return out
 
 
+def _callers_of(corpus: Corpus, f: FunctionInfo) -> list[tuple[FunctionInfo, ast.Call, dict[str, ast.expr]]]:
+    """Call sites (by plain name, same module) of the module-level function ``f`` with their parameter binding."""
+    if f.cls is not None or f.parent_func is not None or f.is_lambda:
+        return []
+
+    def build():
+        out = []
+        for g in f.module.functions.values():
+            if g.is_lambda or g.fq == f.fq:
+                continue
+            for n in g.local_nodes():
+                if isinstance(n, ast.Call) and isinstance(n.func, ast.Name) and n.func.id == f.name and f.module.functions.get(f.name) is f:
+                    bind: dict[str, ast.expr] = {}
+                    ok = True
+                    for i, a in enumerate(n.args):
+                        if isinstance(a, ast.Starred) or i >= len(f.params):
+                            ok = False
+                            break
+                        bind[f.params[i]] = a
+                    for kw in n.keywords:
+                        if kw.arg is None or kw.arg not in f.params:
+                            ok = False
+                        else:
+                            bind[kw.arg] = kw.value
+                    if ok:
+                        out.append((g, n, bind))
+        return out
+
+    return corpus.cache(("c13-callers", f.fq), build)
+
+
+class Site:
+    """One per-field update: ``validate_field(obj, field, raw)`` in merge_file_level itself or in a helper it calls."""
+
+    def __init__(self, U, call, warn, via):
+        self.U: FunctionInfo = U
+        self.call: ast.Call = call
+        self.obj, self.fieldvar, self.val = _vf_args(call)
+        self.warn: str | None = warn
+        self.via = via  # (caller FunctionInfo, call node, binding) when U is a helper
+
+
+def update_sites(corpus: Corpus) -> list[Site]:
+    def build():
+        mfl = corpus.func(f"{MAIN}:merge_file_level")
+        out = []
+        for f, call in _validate_field_calls(corpus):
+            if f.fq == mfl.fq:
+                out.append(Site(f, call, mfl.params[2] if len(mfl.params) > 2 else None, None))
+                continue
+            for depth_caller, c, bind in _callers_of(corpus, f):
+                via = None
+                if depth_caller.fq == mfl.fq:
+                    via = (depth_caller, c, bind)
+                else:
+                    # two levels: merge_file_level -> helper -> helper
+                    for g2, c2, bind2 in _callers_of(corpus, depth_caller):
+                        if g2.fq == mfl.fq:
+                            via = (depth_caller, c, bind)
+                if via is None:
+                    continue
+                warn = None
+                caller_warn = mfl.params[2] if depth_caller.fq == mfl.fq and len(mfl.params) > 2 else None
+                for pname, a in bind.items():
+                    if isinstance(a, ast.Name) and (a.id == caller_warn or (caller_warn is None and a.id in depth_caller.params and "warn" in a.id)):
+                        warn = pname
+                out.append(Site(f, call, warn, via))
+                break
+        return out
+
+    return corpus.cache("c13-update-sites", build)
+
+
 def _role_text(node: ast.AST, obj: str, fieldvar: str, val: str, n: int = 80) -> str:
     """Text of ``node`` with the local names of the three validate_field roles replaced by their roles
     (keys must survive a renaming of locals)."""
@@ -1160,7 +1268,7 @@ def r3_no_raw_overwrite(corpus: Corpus, rep: Report, tier: str):
                     )
     # constructor-based update (copy(**{name: value})) is validated by construction
     mfl = corpus.func(f"{MAIN}:merge_file_level")
-    if not any(f.fq == mfl.fq for f, _ in _validate_field_calls(corpus)):
+    if not update_sites(corpus):
         reval = [c for c in mfl.local_nodes() if isinstance(c, ast.Call) and ((isinstance(c.func, ast.Attribute) and c.func.attr == "copy" and c.keywords) or _resolves_to(mfl.module, c.func, "dataclasses.replace"))]
         if not reval:
             raise Unsupported("merge_file_level neither calls validate_field nor re-constructs the config with the update")
@@ -1179,25 +1287,22 @@ def _r3_merge_last_store(corpus: Corpus, rep: Report) -> None:
     """For fields flagged merge_topmatter: on every path of one iteration that stores at all and does not pass a
     handler, the last store on the object is the merged dict (never the bare front-matter dict)."""
     mfl = corpus.func(f"{MAIN}:merge_file_level")
-    mod = mfl.module
-    calls = [c for f, c in _validate_field_calls(corpus) if f.fq == mfl.fq]
     if not any(fl.meta.get("merge_topmatter") is not None for fl in config_fields(corpus)):
         return
-    for call in calls:
-        obj, fieldvar, val = _vf_args(call)
-        raw, unknown = taint(mfl, val)
-        cfg = get_cfg(mfl)
+    for us in update_sites(corpus):
+        U, call, mod = us.U, us.call, us.U.module
+        obj, fieldvar, val = us.obj, us.fieldvar, us.val
+        raw, unknown = taint(U, val)
+        cfg = get_cfg(U)
         hdr = cfg.loops.get(cfg.stmt_of(call))
-        if hdr is None:
-            continue
-        merges = _merge_exprs(mfl, raw)
+        merges = _merge_exprs(U, raw)
         merge_ids = {id(m) for m in merges}
         stores = {}
-        for st in obj_stores(mfl, obj):
+        for st in obj_stores(U, obj):
             stores.setdefault(cfg.stmt_of(st.node), []).append(st)
         # names that hold the merged dict after `x = {**old, **x}`
         merge_assign = {}
-        for n in mfl.local_nodes():
+        for n in U.local_nodes():
             if isinstance(n, ast.Assign) and len(n.targets) == 1 and isinstance(n.targets[0], ast.Name) and n.value is not None:
                 merge_assign[n] = n.targets[0].id
 
@@ -1223,7 +1328,8 @@ def _r3_merge_last_store(corpus: Corpus, rep: Report) -> None:
                     break
             return e
 
-        start = ("T", hdr)
+        start = ("T", hdr) if hdr is not None else "ENTRY"
+        end = hdr if hdr is not None else "EXIT"
         seen = set()
         work = [(start, "none", frozenset())]
         witness = None
@@ -1233,10 +1339,10 @@ def _r3_merge_last_store(corpus: Corpus, rep: Report) -> None:
             if key in seen:
                 continue
             seen.add(key)
-            if node is hdr and last == "raw":
-                witness = True
-                break
-            if node is hdr and node is not start:
+            if (node is end or node == "EXIT") and node is not start:
+                if last == "raw":
+                    witness = True
+                    break
                 continue
             if node in merge_assign:
                 v = for_merge_field(node.value)
@@ -1254,7 +1360,7 @@ def _r3_merge_last_store(corpus: Corpus, rep: Report) -> None:
                     kind = _expr_kind(v, raw, unknown)
                     last = "raw" if kind == "raw" else "ok"
             for nx in cfg.succ.get(node, []):
-                if nx in ("EXIT", "RAISE") or pruned(nx):
+                if nx == "RAISE" or pruned(nx):
                     continue
                 work.append((nx, last, merged_names))
         k = f"{mfl.fq}|fields flagged merge_topmatter|last store of a successful update is the merge"
@@ -1279,17 +1385,16 @@ def _r3_merge_last_store(corpus: Corpus, rep: Report) -> None:
 def r5_invalid_value_path(corpus: Corpus, rep: Report, tier: str):
     rep.rule("C13.R5", "merge_file_level: a rejected value gives exactly one MD_TOPMATTER warning and is not stored")
     mfl = corpus.func(f"{MAIN}:merge_file_level")
-    mod = mfl.module
-    calls = [c for f, c in _validate_field_calls(corpus) if f.fq == mfl.fq]
-    if not calls:
+    sites = update_sites(corpus)
+    if not sites:
         rep.listed("C13.R5", f"{mfl.fq}|no validate_field call", mfl.site(), "updates are not validated field by field here")
         raise Unsupported("merge_file_level does not call validate_field: invalid-value path not understood")
     if len(mfl.params) < 3:
         raise Unsupported("merge_file_level signature changed")
-    warn = mfl.params[2]
-    cfg = get_cfg(mfl)
+    warn_box = [mfl.params[2]]
 
     def n_warn(node) -> int:
+        warn = warn_box[0]
         if not isinstance(node, ast.stmt) or isinstance(node, (ast.If, ast.For, ast.While, ast.Try, ast.With)):
             e = node.test if isinstance(node, (ast.If, ast.While)) else node.iter if isinstance(node, ast.For) else None
             if e is None:
@@ -1297,9 +1402,14 @@ def r5_invalid_value_path(corpus: Corpus, rep: Report, tier: str):
             return sum(1 for c in ast.walk(e) if isinstance(c, ast.Call) and isinstance(c.func, ast.Name) and c.func.id == warn)
         return sum(1 for c in ast.walk(node) if isinstance(c, ast.Call) and isinstance(c.func, ast.Name) and c.func.id == warn)
 
-    for call in calls:
-        obj, fieldvar, val = _vf_args(call)
-        raw, unknown = taint(mfl, val)
+    for us in sites:
+        U, call, mod = us.U, us.call, us.U.module
+        obj, fieldvar, val = us.obj, us.fieldvar, us.val
+        if us.warn is None:
+            raise Unsupported(f"{U.qualname}: the warning callback of merge_file_level does not reach the function that validates")
+        warn = warn_box[0] = us.warn
+        cfg = get_cfg(U)
+        raw, unknown = taint(U, val)
         tr = None
         node: ast.AST = call
         for a in ancestors(call):
@@ -1314,19 +1424,19 @@ def r5_invalid_value_path(corpus: Corpus, rep: Report, tier: str):
             rep.violation("C13.R5", kbase + "|handler", mod.site(call), "validate_field is not inside a try: an invalid front-matter value aborts the parse instead of being ignored with a warning")
             continue
         hdr = cfg.loops.get(cfg.stmt_of(call))
-        if hdr is None:
+        if hdr is None and us.via is None:
             raise Unsupported("validate_field is not called inside the per-update loop")
         for h in tr.handlers:
             ht = unparse(h.type) if h.type is not None else "BaseException"
             k = kbase + f"|except {ht}"
             site = mod.site(h)
             start = ("H", h)
-            res = cfg.counts(start, {hdr, "EXIT"}, n_warn)
+            res = cfg.counts(start, {x for x in (hdr, "EXIT") if x is not None}, n_warn)
             problems = []
             if "EXIT" in res and hdr not in res:
                 pass
             for stop, cnts in res.items():
-                where = "the next update" if stop is hdr else "the end of the function"
+                where = "the next update" if (stop is hdr or us.via is not None) else "the end of the function"
                 if cnts != {1}:
                     problems.append(f"{'/'.join(str(c) if c < 2 else '2+' for c in sorted(cnts))} warning call(s) on the path from the handler to {where} (expected exactly 1)")
             if not res:
@@ -1339,7 +1449,7 @@ def r5_invalid_value_path(corpus: Corpus, rep: Report, tier: str):
                         if not (a0 is not None and (dotted(a0) or "").endswith("MystWarnings.MD_TOPMATTER") and mod.resolve(dotted(a0)).endswith("warnings_.MystWarnings.MD_TOPMATTER")):
                             problems.append(f"the warning is not typed MystWarnings.MD_TOPMATTER: `{short(c, 60)}`")
             # no store of the rejected value on the path
-            for s in obj_stores(mfl, obj):
+            for s in obj_stores(U, obj):
                 sst = cfg.stmt_of(s.node)
                 if cfg.paths_avoiding(start, sst, lambda n: n is hdr) and s.value is not None:
                     kind = _expr_kind(s.value, raw, unknown)
@@ -1349,13 +1459,13 @@ def r5_invalid_value_path(corpus: Corpus, rep: Report, tier: str):
                         problems.append(f"`{short(s.node, 60)}` (line {s.node.lineno}) stores the rejected value after the handler ran")
             # if the rejected value can already be on the object when the handler starts, the handler must replace it
             cst = cfg.stmt_of(call)
-            pre = [s for s in obj_stores(mfl, obj) if s.value is not None and _expr_kind(s.value, raw, unknown) == "raw" and _reach_same_iteration(cfg, cfg.stmt_of(s.node), cst) and not _reach_same_iteration(cfg, cst, cfg.stmt_of(s.node))]
+            pre = [s for s in obj_stores(U, obj) if s.value is not None and _expr_kind(s.value, raw, unknown) == "raw" and _reach_same_iteration(cfg, cfg.stmt_of(s.node), cst) and not _reach_same_iteration(cfg, cst, cfg.stmt_of(s.node))]
             hazard = [vf.qualname for vf in validator_candidates(corpus).values() if rejection_after_store(corpus, vf)]
             note = "the rejected value is never on the object"
             if pre or hazard:
                 restored = [r for cf, c, hh, r, _ in catching_callers(corpus) if hh is h]
                 reason = f"`{short(pre[0].node, 50)}` stores the raw value before it is validated" if pre else f"{', '.join(hazard)} can store before rejecting"
-                foreign = [nd for ff, nd in corpus._cache.get("c13-foreign-restores", []) if ff.fq == mfl.fq]
+                foreign = [nd for ff, nd in corpus._cache.get("c13-foreign-restores", []) if ff.fq == U.fq]
                 if restored and all(restored):
                     note = f"{reason}; the handler re-stores the incoming configuration's value on every path"
                 elif foreign:
@@ -1746,6 +1856,28 @@ def _fresh_container_per_instance(corpus: Corpus, rep: Report, fname: str, user:
         rep.ok("C13.R4", k, site, f"{vf.qualname} stores a freshly built container on every accepting path")
 
 
+def _param_receives(corpus: Corpus, f: FunctionInfo, pname: str, mfl: FunctionInfo, copies: set[str], depth: int = 0) -> str | None:
+    """'copy' when parameter ``pname`` of helper ``f`` is bound, at every call site, to merge_file_level's copy of
+    the global config (directly or through one more helper); 'global' when some call site passes the global parameter."""
+    if pname not in f.params or depth > 2:
+        return None
+    callers = _callers_of(corpus, f)
+    if not callers:
+        return None
+    verdicts = set()
+    for g, c, bind in callers:
+        a = bind.get(pname)
+        if not isinstance(a, ast.Name):
+            return None
+        if g.fq == mfl.fq:
+            verdicts.add("copy" if a.id in copies else "global" if a.id == mfl.params[0] else None)
+        else:
+            verdicts.add(_param_receives(corpus, g, a.id, mfl, copies, depth + 1))
+    if "global" in verdicts:
+        return "global"
+    return "copy" if verdicts == {"copy"} else None
+
+
 def _copy_locals(mfl: FunctionInfo) -> tuple[str, set[str]]:
     """(global-config parameter, locals assigned only from <param>.copy(...))."""
     gparam = mfl.params[0]
@@ -1794,6 +1926,10 @@ def r4_config_writers(corpus: Corpus, rep: Report, tier: str):
                 rep.ok("C13.R4", k, site, f"write on `{base.id}`, the copy of the global config")
             elif f.fq == mfl.fq and root == gparam:
                 rep.violation("C13.R4", k, site, f"merge_file_level writes to its `{gparam}` parameter - the global configuration shared by all documents")
+            elif isinstance(base, ast.Name) and _param_receives(corpus, f, base.id, mfl, copies) == "copy":
+                rep.ok("C13.R4", k, site, f"write on `{base.id}`, which every call site binds to merge_file_level's copy of the global config")
+            elif isinstance(base, ast.Name) and _param_receives(corpus, f, base.id, mfl, copies) == "global":
+                rep.violation("C13.R4", k, site, f"{f.qualname} writes to `{base.id}`, which merge_file_level binds to its `{gparam}` parameter - the global configuration shared by all documents")
             else:
                 why = _restored_in_finally(f, node)
                 if why:
@@ -1811,14 +1947,20 @@ def r4_config_writers(corpus: Corpus, rep: Report, tier: str):
     # merge_file_level: the parameter is only copied/read
     cfg = get_cfg(mfl)
     mod = mfl.module
-    vcalls = [c for f, c in _validate_field_calls(corpus) if f.fq == mfl.fq]
-    for c in vcalls:
+    sites = update_sites(corpus)
+    vcalls = [us.call for us in sites if us.U.fq == mfl.fq]
+    for us in sites:
+        c = us.call
         k = f"{mfl.fq}|validate_field|validated object"
         a0 = c.args[0] if c.args else None
-        if isinstance(a0, ast.Name) and a0.id in copies:
-            rep.ok("C13.R4", k, mod.site(c), "validators store on the copy")
-        elif isinstance(a0, ast.Name) and a0.id == gparam:
-            rep.violation("C13.R4", k, mod.site(c), f"validate_field is given the global `{gparam}`: coercing validators store the document's value on the configuration shared by all documents")
+        where = us.U.module.site(c)
+        got = None
+        if isinstance(a0, ast.Name):
+            got = ("copy" if a0.id in copies else "global" if a0.id == gparam else None) if us.U.fq == mfl.fq else _param_receives(corpus, us.U, a0.id, mfl, copies)
+        if got == "copy":
+            rep.ok("C13.R4", k, where, "validators store on the copy")
+        elif got == "global":
+            rep.violation("C13.R4", k, where, f"validate_field is given the global `{gparam}`: coercing validators store the document's value on the configuration shared by all documents")
         else:
             raise Unsupported(f"validate_field target not understood: {short(c, 60)}")
     # the copy is taken once, outside any loop, and is what is returned
@@ -1829,7 +1971,7 @@ def r4_config_writers(corpus: Corpus, rep: Report, tier: str):
         k = f"{mfl.fq}|copy of the global config|taken once"
         if cfg.loops.get(n) is not None:
             rep.violation("C13.R4", k, mod.site(n), "the copy is re-taken inside a loop: updates applied in earlier iterations are lost")
-        elif vcalls and not all(cfg.dominates(n, cfg.stmt_of(c)) for c in vcalls):
+        elif not all(cfg.dominates(n, cfg.stmt_of(c)) for c in vcalls + [us.via[1] for us in sites if us.via is not None and us.via[0].fq == mfl.fq]):
             rep.violation("C13.R4", k, mod.site(n), "the copy does not dominate the validation of the updates")
         else:
             rep.ok("C13.R4", k, mod.site(n), "before the update loop")
@@ -1842,15 +1984,16 @@ def r4_config_writers(corpus: Corpus, rep: Report, tier: str):
         else:
             raise Unsupported(f"return value of merge_file_level not understood: {short(r, 40)}")
     # merged dict values: a new dict, global operand first, front-matter operand last
-    for c in vcalls:
-        obj, fieldvar, val = _vf_args(c)
-        raw, unknown = taint(mfl, val)
+    for us in sites:
+        U, mod = us.U, us.U.module
+        obj, fieldvar, val = us.obj, us.fieldvar, us.val
+        raw, unknown = taint(U, val)
         merges = []
-        for n in mfl.local_nodes():
+        for n in U.local_nodes():
             mo = merge_operands(n, raw)
             if mo is not None:
                 merges.append((n, None if mo == "inplace" else mo))
-        flagged = [t for n in mfl.local_nodes() if isinstance(n, ast.If) for t, p in flow_facts(n.test, True) if _metadata_flag(t, fieldvar) == "merge_topmatter"]
+        flagged = [t for n in U.local_nodes() if isinstance(n, ast.If) for t, p in flow_facts(n.test, True) if _metadata_flag(t, fieldvar) == "merge_topmatter"]
         if flagged and not merges:
             raise Unsupported("merge_file_level tests metadata['merge_topmatter'] but no dict merge expression was recognised")
         for n, ops in merges:
@@ -1960,20 +2103,43 @@ def r6_entry_points_funnel(corpus: Corpus, rep: Report, tier: str):
             raise Unsupported("__post_init__ calls validate_fields conditionally")
         else:
             rep.violation("C13.R6", k, pi.site(), "__post_init__ does not call validate_fields(self): MdParserConfig(**values) and copy() accept anything and coerce nothing")
-    # (b) validate_fields / validate_field shape (precondition, ANALYSIS-ERROR if unknown)
+    # (b) validate_fields: every field's validator sees the current value on every iteration
     vfs = dcv.func("validate_fields")
-    loops = [n for n in vfs.local_nodes() if isinstance(n, ast.For)]
-    ok = False
-    for lp in loops:
-        if isinstance(lp.iter, ast.Call) and dcv.resolve(dotted(lp.iter.func) or "") == "dataclasses.fields" and isinstance(lp.target, ast.Name) and len(lp.body) == 1 and isinstance(lp.body[0], ast.Expr):
-            c = lp.body[0].value
-            fv = lp.target.id
-            if isinstance(c, ast.Call) and dotted(c.func) == "validate_field" and len(c.args) == 3 and unparse(c.args[0]) == vfs.params[0] and unparse(c.args[1]) == fv and unparse(c.args[2]) == f"getattr({vfs.params[0]}, {fv}.name)":
-                ok = True
-    if not ok:
-        rep.error("C13.R6", "validate_fields is not `for field in dc.fields(inst): validate_field(inst, field, getattr(inst, field.name))`")
+    inst = vfs.params[0]
+    cfgs = get_cfg(vfs)
+    lp = next((n for n in vfs.local_nodes() if isinstance(n, ast.For) and isinstance(n.iter, ast.Call) and dcv.resolve(dotted(n.iter.func) or "") == "dataclasses.fields" and n.iter.args and unparse(n.iter.args[0]) in (inst, f"type({inst})", f"{inst}.__class__") and isinstance(n.target, ast.Name)), None)
+    k = f"{vfs.fq}|every field, current value"
+    if lp is None:
+        rep.error("C13.R6", "validate_fields does not loop over dc.fields(inst)")
     else:
-        rep.ok("C13.R6", f"{vfs.fq}|every field, current value", vfs.site())
+        fv = lp.target.id
+        cur = f"getattr({inst}, {fv}.name)"
+        val_names = {t.id for n in ast.walk(lp) if isinstance(n, ast.Assign) and unparse(n.value) == cur for t in n.targets if isinstance(t, ast.Name)}
+        calls = [c for s_ in lp.body for c in ast.walk(s_) if isinstance(c, ast.Call) and dotted(c.func) == "validate_field" and len(c.args) == 3 and unparse(c.args[0]) == inst and unparse(c.args[1]) == fv and (unparse(c.args[2]) == cur or (isinstance(c.args[2], ast.Name) and c.args[2].id in val_names))]
+        if not calls:
+            rep.error("C13.R6", "validate_fields does not call validate_field(inst, field, getattr(inst, field.name)) inside its loop")
+        else:
+            cstmts = {cfgs.stmt_of(c) for c in calls}
+            skip = any(cfgs.paths_avoiding(("T", lp), stop, lambda n: n in cstmts) for stop in (lp, "EXIT"))
+            if not skip:
+                rep.ok("C13.R6", k, vfs.site())
+            else:
+                tests = [n for s_ in lp.body for n in ast.walk(s_) if isinstance(n, (ast.If, ast.IfExp, ast.While))]
+                value_dep = [t for t in tests if (_free_names(t.test) & val_names) or "getattr(" in unparse(t.test)]
+                harmless = [t for t in tests if unparse(t.test) in (f"'validator' not in {fv}.metadata", f"not {fv}.metadata.get('validator')")]
+                if value_dep:
+                    t = value_dep[0]
+                    rep.violation(
+                        "C13.R6",
+                        k,
+                        dcv.site(t),
+                        f"validate_fields skips a field's validator depending on its value (`{short(t.test, 70)}`): values that take the skipping path are accepted unchecked and "
+                        "un-normalised by the constructor, copy() and both front ends (e.g. a wrong-typed value that merely compares equal to the default)",
+                    )
+                elif tests and len(harmless) == len(tests):
+                    rep.ok("C13.R6", k, vfs.site(), "only fields without a validator are skipped")
+                else:
+                    rep.error("C13.R6", "validate_fields skips validate_field on some path under a condition that is not understood")
     vf = dcv.func("validate_field")
     cfgv = get_cfg(vf)
     applied = []
@@ -2441,4 +2607,20 @@ def mutants(corpus: Corpus):
         v = f.params[2]
         out.append(Mutant("c13-extensions-stored-only-when-not-already-a-set", "C13.R4", main.rel, splice(main.src, st, f"if not isinstance({v}, set):\n{ind}    {_seg(main, st)}"), expect="own container per instance"))
         out.append(Mutant("c13-extensions-set-passed-through-unchanged", "C13.R4", main.rel, splice(main.src, st.value.args[2], f"{v} if isinstance({v}, set) else {_seg(main, st.value.args[2])}"), expect="own container per instance"))
+    # ---- round 5: validate_fields skips a validator depending on the value
+    dv = corpus.mod(DCV)
+    f = dv.func("validate_fields")
+    lp = find_node(f, lambda n: isinstance(n, ast.For))
+    if lp is not None and len(lp.body) == 1 and isinstance(lp.body[0], ast.Expr) and isinstance(lp.body[0].value, ast.Call) and len(lp.body[0].value.args) == 3:
+        st = lp.body[0]
+        c = st.value
+        ind = _indent(dv, st)
+        fv = unparse(lp.target)
+        cur = _seg(dv, c.args[2])
+        callv = f"{unparse(c.func)}({_seg(dv, c.args[0])}, {_seg(dv, c.args[1])}, value)"
+        out.append(Mutant("c13-validate-fields-skips-values-equal-to-default", "C13.R6", dv.rel, splice(dv.src, st, f"value = {cur}\n{ind}if {fv}.default is not dc.MISSING and value == {fv}.default:\n{ind}    continue\n{ind}{callv}"), expect="validate_fields"))
+        out.append(Mutant("c13-validate-fields-skips-none", "C13.R6", dv.rel, splice(dv.src, st, f"value = {cur}\n{ind}if value is not None:\n{ind}    {callv}"), expect="validate_fields"))
+        out.append(Mutant("c13-validate-fields-skips-falsy", "C13.R6", dv.rel, splice(dv.src, st, f"if {cur}:\n{ind}    {_seg(dv, st)}"), expect="validate_fields"))
+    else:
+        out.append(("c13-validate-fields-skips-values-equal-to-default", "validate_fields loop body is not a single validate_field call on this tree"))
     return out
